@@ -104,8 +104,16 @@ def held_last(row):
     return all(x == 0 for x in row['spd']) and row['acc'][-1] == 0
 
 
-def load_si(sc, t, pos, spd):
+def load_in_force(sc):
     l = sc['load']
+    for op in sc.get('ops', []):
+        if op[0] == 'setload':
+            l = op[1]
+    return l
+
+
+def load_si(sc, t, pos, spd):
+    l = load_in_force(sc)
     return (l['c0'] + l['ct'] * t + l['cp'] * pos + l['cs'] * spd) * S.ffactor('Torque', l['u'])
 
 
@@ -155,7 +163,7 @@ def check_history(pid, sc, res):
                     out.append(W('drive', f'instant {k}: driving torque of element {i} is {r["dtq"][i]!r}, driver\'s x efficiency x ratio is {want!r}', sc, instant=k))
                     return out
             want = load_si(sc, r['t'], r['pos'][-1], r['spd'][-1])
-            l = sc['load']
+            l = load_in_force(sc)
             terms = (abs(l['c0']) + abs(l['ct'] * r['t']) + abs(l['cp'] * r['pos'][-1]) + abs(l['cs'] * r['spd'][-1])) * S.ffactor('Torque', l['u'])
             if not close(r['ltq'][-1], want, 1e-9 * scale_tq + 1e-9 * terms):
                 out.append(W('load', f'instant {k}: load torque of the last element is {r["ltq"][-1]!r}, the load function at (t={r["t"]!r}, pos={r["pos"][-1]!r}, spd={r["spd"][-1]!r}) gives {want!r}', sc, instant=k))
@@ -529,3 +537,87 @@ def time_fragile(rules, rows):
             if abs(t - s0) <= 1e-9 * max(abs(s0), d, 1e-3) or abs(t - s0 - d) <= 1e-9 * max(abs(s0), d, 1e-3):
                 return True
     return False
+
+
+# ------------------------------------------------------------------ C15: each rule's window and value, from the recorded state
+def c15_check(sc, res):
+    out = []
+    rows = rows_si(res['rows'])
+    st, _ = expected_static(sc)
+    m = motor_si(sc)
+    eta = 1.0
+    for e, x in zip(sc['elems'], st):
+        if e['kind'] in ('spur', 'helical', 'wheel'):
+            eta *= x['eff']
+    marks = res['marks']
+    hist_len = 0
+    lr = last_reset_index(sc)
+    for i_op, (op, mlen) in enumerate(zip(sc['ops'], marks)):
+        if i_op < lr:
+            continue
+        if op[0] == 'reset':
+            hist_len = 0
+        elif op[0] == 'run':
+            rules = op[3]
+            if rules:
+                for k in range(hist_len, mlen):
+                    r = rows[k]
+                    props, open_ = [], False
+                    for x in rules:
+                        if x['r'] == 'const':
+                            t = F(res['rows'][k]['time'][0]) * S.factor('Time', res['rows'][k]['time'][1])
+                            s0 = F(x['start'][1]) * S.factor('Time', x['start'][2])
+                            d = F(x['dur'][1]) * S.factor('TimeInterval', x['dur'][2])
+                            band = F(1, 10 ** 9) * max(abs(s0), d, F(1, 1000))
+                            if abs(t - s0) <= band or abs(t - s0 - d) <= band:
+                                open_ = True
+                            elif s0 < t < s0 + d:
+                                props.append(('const', float(x['v'])))
+                            continue
+                        p = r['pos'][x['enc']]
+                        TG = sv('AngularPosition', x['target'][1:])
+                        if x['r'] == 'reach':
+                            BA = sv('Angle', x['brake'][1:])
+                            th = TG - BA + r['ltq'][0] / m['Tmax'] / eta * BA
+                            if abs(p - th) <= 1e-9 * max(abs(th), abs(p), 1e-9):
+                                open_ = True
+                            elif p > th:
+                                props.append(('reach', 1 - (p - th) / BA))
+                        else:
+                            if abs(p - TG) <= 1e-9 * max(abs(TG), 1e-9):
+                                open_ = True
+                                continue
+                            if p > TG:
+                                continue
+                            if x['r'] == 'prop':
+                                l = rows[0]['ltq'][0] if k > 0 else r['ltq'][0]
+                                cand = 1 / eta * (l / m['Tmax']) * ((m['imax'] - m['i0']) / m['imax']) + m['i0'] / m['imax']
+                                pm = x['mult'] * cand
+                                if pm == 0:
+                                    if x['pmin'] is None:
+                                        open_ = True
+                                        continue
+                                    pm = x['pmin']
+                                props.append(('prop', (1 - pm) * p / TG + pm))
+                            else:
+                                s_ = r['spd'][x['tach']] / m['w0']
+                                IL = sv('Current', x['ilim'][1:])
+                                e_ = IL / m['imax']
+                                rad = s_ * s_ + e_ * e_ + 2 * s_ * ((IL - 2 * m['i0']) / m['imax'])
+                                if rad < 0:
+                                    open_ = True
+                                    continue
+                                v = 0.5 * (s_ + e_ + math.sqrt(rad))
+                                props.append(('lim', v, IL, x['tach']))
+                    if open_ or len(props) >= 2:
+                        continue
+                    want = min(max(props[0][1], -1), 1) if props else 1
+                    if not close(r['pwm'], want, 1e-9):
+                        out.append(W('rule-value', f'instant {k}: recorded duty cycle {r["pwm"]!r}; the rules {[x["r"] for x in rules]} propose {[(q[0], q[1]) for q in props]} (expected {want!r})', sc, instant=k))
+                        return out
+                    if props and props[0][0] == 'lim' and props[0][3] == 0 and m['i0'] / m['imax'] + 1e-9 < props[0][1] < 1 - 1e-9 and r['cur'] is not None:
+                        if not close(r['cur'], props[0][2], 1e-9 * m['imax']):
+                            out.append(W('limit-current', f'instant {k}: StartLimitCurrent in force and unclipped (duty cycle {r["pwm"]!r}) but the recorded current is {r["cur"]!r} A, limit {props[0][2]!r} A', sc, instant=k))
+                            return out
+            hist_len = mlen
+    return out
